@@ -21,7 +21,7 @@ var addrShapes = []string{
 	"https://example.com/pkg%d.tgz|x=1&y=2",
 }
 
-var locPool = []string{"", "m1", "m1/sub", "m2"}
+var locPool = []string{"", "m1", "m1/sub", "m2", "sp ace"}
 var versionPool = []string{"0.9.0", "1.0.0", "1.0.1", "1.2.0", "1.2.3", "2.0.0", "2.1.0-beta.1", "3.0.0-rc.1", "1.10.0", "1.4.0+build.7"}
 var constrPool = []string{"", "", ">= 1.0.0", "~> 1.0", "~> 1.2.0", "< 2.0.0", ">= 1.0.0, < 2.0.0", "1.2.3", "1.0.0", "2.1.0-beta.1", ">= 0.0.1", "> 1.0.0", "!= 1.2.3", "<= 1.2.0", "< 0.5.0"}
 
